@@ -76,17 +76,18 @@ func VerifSessionOf(c *Conn) VerifSession {
 // VerifSizes are the sizes of the per-connection buffers an unauthenticated
 // sender can influence (overlay only).
 type VerifSizes struct {
-	QueuedDatagrams  int
-	ReplayDetectors  int
-	LocalSeqEpochs   int
-	RemoteSeqEpochs  int
-	HandshakeCache   int
-	FragmentBytes    int
-	FragmentCount    int
-	FragmentMessages int
-	PendingACKs      int
-	RemoteEpoch      uint16
-	LocalEpoch       uint16
+	QueuedDatagrams   int
+	ReplayDetectors   int
+	LocalSeqEpochs    int
+	RemoteSeqEpochs   int
+	HandshakeCache    int
+	HandshakeCacheDup int // byte-identical copies among them (computed only when the cache is large)
+	FragmentBytes     int
+	FragmentCount     int
+	FragmentMessages  int
+	PendingACKs       int
+	RemoteEpoch       uint16
+	LocalEpoch        uint16
 }
 
 // VerifSizesOf reads the buffer sizes at a quiescent point.
@@ -96,18 +97,24 @@ func VerifSizesOf(c *Conn) VerifSizes {
 	common := dtlsstate.CommonState(c.state)
 	b, n, m := c.fragmentBuffer.VerifSize()
 
+	dup := 0
+	if c.handshakeCache.VerifLen() > 300 {
+		dup = c.handshakeCache.VerifDuplicates()
+	}
+
 	return VerifSizes{
-		QueuedDatagrams:  len(c.encryptedPackets),
-		ReplayDetectors:  len(common.ReplayDetector),
-		LocalSeqEpochs:   len(common.LocalSequenceNumber),
-		RemoteSeqEpochs:  len(common.RemoteSequenceNumber),
-		HandshakeCache:   c.handshakeCache.VerifLen(),
-		FragmentBytes:    b,
-		FragmentCount:    n,
-		FragmentMessages: m,
-		PendingACKs:      len(c.pendingACKs),
-		RemoteEpoch:      common.RemoteEpoch(),
-		LocalEpoch:       common.LocalEpoch(),
+		HandshakeCacheDup: dup,
+		QueuedDatagrams:   len(c.encryptedPackets),
+		ReplayDetectors:   len(common.ReplayDetector),
+		LocalSeqEpochs:    len(common.LocalSequenceNumber),
+		RemoteSeqEpochs:   len(common.RemoteSequenceNumber),
+		HandshakeCache:    c.handshakeCache.VerifLen(),
+		FragmentBytes:     b,
+		FragmentCount:     n,
+		FragmentMessages:  m,
+		PendingACKs:       len(c.pendingACKs),
+		RemoteEpoch:       common.RemoteEpoch(),
+		LocalEpoch:        common.LocalEpoch(),
 	}
 }
 
